@@ -28,25 +28,31 @@ THEOREMS = [
     "Scenic.Expr.forest_args",
     "Scenic.Expr.simp_table_sound",
     "Scenic.Expr.vty_sound",
-    "Scenic.Expr.fwd_dispatch",
-    "Scenic.Expr.refl_dispatch",
+    "Scenic.Expr.build_vecWF",
+    "Scenic.Expr.binBuild_eval",
     "Scenic.Expr.floordiv_one_not_identity",
     "Scenic.Expr.rsub_zero_not_identity",
     "Scenic.Expr.rtruediv_one_not_identity",
-    "Scenic.Expr.reflected_concat_witness",
-    "Scenic.Expr.reflected_concat_fixed",
+    "Scenic.Expr.legacy_shapes_rejected",
+    "Scenic.Expr.reflected_concat",
+    "Scenic.Expr.tuple_minus_vector",
+    "Scenic.Expr.vecdist_plus_tuple",
+    "Scenic.Expr.vector_plus_raw_tuple",
+    "Scenic.Expr.raw_tuple_arithmetic",
+    "Scenic.Expr.short_zero_sequence_witness",
     "Scenic.Support.support_sound",
     "Scenic.Support.mul_bounds",
     "Scenic.Support.div_lower",
     "Scenic.Support.div_upper",
     "Scenic.Support.hypot_not_monotone",
-    "Scenic.Support.absBounds_sound",
+    "Scenic.Support.identity_hypAbs_unsound",
+    "Scenic.Support.hypBounds_sound",
     "Scenic.Delayed.delayed_eval_final",
     "Scenic.Delayed.final_value_of_last_writer",
     "Scenic.C05.forest_eval_eq_python_partial",
     "Scenic.C05.simp_table_sound",
-    "Scenic.C05.support_sound_partial",
-    "Scenic.C05.hypot_declared_monotone_witness",
+    "Scenic.C05.support_sound",
+    "Scenic.C05.build_vecWF",
     "Scenic.C05.delayed_eval_final",
 ]
 SIDE = [
@@ -55,6 +61,7 @@ SIDE = [
     "Scenic.C05.gen_formulas_sound",
     "Scenic.C05.gen_monotone_classified",
     "Scenic.C05.gen_operators_known",
+    "Scenic.C05.gen_unmodelled_repairs_in_place",
 ]
 
 FINGERPRINTS = {
@@ -607,6 +614,13 @@ def corpus():
         ("star-vecdist", ("F", "max", [("S", vd), ("P", ("C", 2.5))])),
     ]:
         out.append((nm, vleaf, e))
+    for nm, leaf, e in [
+        ("const-vector-plus-short-zero", "Uniform((), (0, 0), (1, 2, 3))", ("B", "add", ("C", V(1, 2, 3)), L0)),
+        ("short-zero-plus-const-vector", "Uniform([], [1, 2, 3])", ("B", "add", L0, ("C", V(1, 2, 3)))),
+        ("const-vector-minus-short-zero", "Uniform((0,), (4, 5, 6))", ("B", "sub", ("C", V(1, 2, 3)), L0)),
+        ("random-vector-plus-short-zero", "Uniform((), (1, 2, 3))", ("B", "add", ("VEC", ("L", 1), ("C", 2), ("C", 3)), L0)),
+    ]:
+        out.append((nm, [leaf, "Range(0, 1)"], e))
     tl = ["Uniform((1, 2), (3, 4, 5))", "DiscreteRange(0, 1)"]
     L1 = ("L", 1)
     for nm, e in [
@@ -992,21 +1006,46 @@ def show_canon(c):
     return f"<{c[1]}>"
 
 
-def classify_violation(kind, e, real, what=""):
+def uncanon(c):
+    """canonical value -> a Python value that is == to the original"""
+    from scenic.core.vectors import Vector
+    k = c[0]
+    if k == "n":
+        return int(c[1]) if c[1].denominator == 1 else float(c[1])
+    if k == "none":
+        return None
+    if k == "s":
+        return c[1]
+    if k == "t":
+        return tuple(uncanon(x) for x in c[1])
+    if k == "l":
+        return [uncanon(x) for x in c[1]]
+    if k == "v":
+        return Vector(*[uncanon(("n", x)) for x in c[1:]])
+    raise ValueError(c)
+
+
+def short_zero_case(e, leaf_canon):
+    """a constant Vector combined by + / - with an operand sampled to an all-zero sequence of fewer than 3 elements"""
+    if leaf_canon is None:
+        return False
+    try:
+        leaf_values = [uncanon(c) for c in leaf_canon]
+    except ValueError:
+        return False
+    for a, b in ((e[2], e[3]), (e[3], e[2])):
+        if a[0] == "C" and isinstance(a[1], VecConst) and leaves_of(b):
+            v = py_eval(src(b), leaf_values)
+            if v[0] in ("t", "l") and len(v[1]) < 3 and all(x == ("n", Fraction(0)) for x in v[1]):
+                return True
+    return False
+
+
+def classify_violation(kind, e, real, what="", leaf_values=None):
     """stable key of a failing expression (minimal failing sub-expression)"""
-    import re
     k = e[0]
-    m = re.search(r"'(tuple|list|str)' object has no attribute '(__r?(?:add|sub)__)'", what)
-    if k == "B" and kind == "sample-exception" and m:
-        return f"operator-dispatch:{m.group(1)}.{m.group(2)}"
-    m = re.search(r"can only concatenate (tuple|list) \(not \"Vector\"\) to", what)
-    if k == "B" and e[1] == "add" and kind == "sample-exception" and m:
-        return f"operator-dispatch:{m.group(1)}+Vector"
-    if k == "B" and e[1] in ("add", "sub") and kind == "compile-crash" and "has no attribute 'coordinates'" in what:
-        return "vector-handler-sequence-operand"
-    if k == "B" and kind == "value-mismatch" and (is_raw_literal(e[2]) or is_raw_literal(e[3])) and "scene value" in what \
-            and ("<" in what.split("but plain Python")[0]):
-        return "vector-operator-raw-sequence-operand"
+    if k == "B" and e[1] in ("add", "sub") and kind == "sample-exception" and "IndexError" in what and short_zero_case(e, leaf_values):
+        return "vector-zero-identity-short-sequence"
     parts = [kind, node_kind(e)] + [node_kind(c) for c in children(e)]
     return ":".join(parts)[:100]
 
@@ -1039,7 +1078,7 @@ def expr_job(job):
             continue
         p = py_eval(text, lv)
         out.append({"lc": lc, "r": r, "p": p, "pow_ok": pow_modelled(e, lv),
-                    "universe": inside_universe(e, lv) and not raw_vector_operand(e, lv), "mag": magnitude(e, lv)})
+                    "universe": inside_universe(e, lv), "mag": magnitude(e, lv)})
     return {"stage": real.stage, "exc": real.exc, "msg": real.msg, "shape": real.shape, "leaf_ty": real.leaf_ty, "samples": out}
 
 
@@ -1050,18 +1089,6 @@ def is_raw_literal(x):
     if x[0] == "B" and x[1] in ("add", "mul"):
         return is_raw_literal(x[2]) or is_raw_literal(x[3])
     return False
-
-
-def raw_vector_operand(e, lv):
-    """a Vector-valued operand combined with a raw tuple/list containing a random value (vector operators do not wrap
-    their operands with toDistribution: outside the Lean model, checked by the direct oracle only)"""
-    if e[0] == "B":
-        for a, b in ((e[2], e[3]), (e[3], e[2])):
-            if is_raw_literal(b):
-                v = py_eval(src(a), lv)
-                if v[0] == "v" or (v[0] == "other" and "vector" in v[1]):
-                    return True
-    return any(raw_vector_operand(c, lv) for c in children(e))
 
 
 def unmodelled_syntax(e):
@@ -1175,7 +1202,7 @@ def first_violation(leaves, kinds, e, seed):
     for smp in res["samples"]:
         v = property_verdict(res["stage"], res["exc"], res["msg"], smp["r"], smp["p"])
         if v:
-            return (v[0], v[1], [show_canon(c) for c in smp["lc"]])
+            return (v[0], v[1], [show_canon(c) for c in smp["lc"]], smp["lc"])
     return None
 
 
@@ -1201,8 +1228,8 @@ def report_violation(ctx, job, verdict, shown):
     m = shrink(leaves, kinds, e, seed, kind)
     v = first_violation(leaves, kinds, m, seed)
     if v is None:        # shrinking lost it (sample dependent): report the original
-        m, v = e, (kind, what, shown)
-    key = classify_violation(kind, m, None, v[1])
+        m, v = e, (kind, what, shown, None)
+    key = classify_violation(kind, m, None, v[1], v[3])
     used = sorted(leaves_of(m))
     ctx.hist("violation_candidates", key)
     return ctx.violation(
@@ -1378,6 +1405,12 @@ def abstract_support(o):
             for a in o.arguments:
                 out += abstract_support(a)
             return out
+        if fname == "hypot" and not o.kwargs and (o.support.__name__ == "_hypotSupport"
+                                                  or o.support.__qualname__.startswith("monotonicDistributionFunction")):
+            out = ["HYP", str(len(o.arguments))]
+            for a in o.arguments:
+                out += abstract_support(a)
+            return out
         raise Unmodelled("support function of " + fname)
     if type(o).supportInterval is D.Distribution.supportInterval:
         return ["X"]
@@ -1549,7 +1582,7 @@ def support_part(ctx, build_ok, jobs, results):
                     above = hi is not None and v > hi + margin
                     ctx.evaluations += 1
                     if below or above:
-                        key = "support:hypot-declared-monotonic" if "hypot" in text else "support-unsound:" + node_kind(e)
+                        key = "support-unsound:" + node_kind(e)
                         used = sorted(leaves_of(e))
                         if ctx.violation(
                                 key,
@@ -1659,8 +1692,8 @@ EXTRAS = [
     ("slice-step", ["Uniform([1, 2, 3, 4], [5, 6, 7, 8])", "DiscreteRange(1, 2)"], "x0[::x1]", None),
     ("slice-negative", ["Uniform((1, 2, 3, 4), (5, 6, 7, 8))", "DiscreteRange(1, 2)"], "x0[-x1:]", None),
     ("method-count", ["Uniform((1, 2, 1), (3, 1))"], "x0.count(1)", None),
-    ("method-index-random", ["Uniform((1, 2, 1), (3, 1, 2))", "Uniform(1, 2)"], "x0.index(x1)", "attribute-shadowed:Options.index"),
-    ("method-index-list", ["Uniform([1, 2, 1], [3, 1])"], "x0.index(1) + x0.count(1)", "attribute-shadowed:Options.index"),
+    ("method-index-random", ["Uniform((1, 2, 1), (3, 1, 2))", "Uniform(1, 2)"], "x0.index(x1)", None),
+    ("method-index-list", ["Uniform([1, 2, 1], [3, 1])"], "x0.index(1) + x0.count(1)", None),
     ("method-str", ["Uniform('ab', 'cd')"], "x0.upper() + x0", None),
     ("method-kw", ["Uniform('a b c', 'd e')", "DiscreteRange(0, 2)"], "x0.split(sep=' ', maxsplit=x1)", None),
     ("method-kw-positional", ["Uniform('a b a', 'a a')", "DiscreteRange(0, 2)"], "x0.replace('a', 'z', x1)", None),
@@ -1674,9 +1707,12 @@ EXTRAS = [
     ("rdivmod", ["DiscreteRange(3, 6)"], "divmod(20, x0)", None),
     ("max-key", ["Range(-3, 1)", "Range(-1, 2)"], "max(x0, x1, key=abs)", None),
     ("vector-norm", ["Range(-3, 1)"], "Vector(x0, 1, 2).norm()", None),
-    ("vector-distance", ["Range(-3, 1)", "Range(0, 1)"], "Vector(x0, 1, 2).distanceTo(Vector(1, x1, 1))", "scalar-operator-random-self"),
-    ("vector-distance-const", ["Range(-3, 1)"], "Vector(x0, 1, 2).distanceTo(Vector(1, 1, 1))", "scalar-operator-random-self"),
-    ("vector-angleWith", ["Range(1, 3)", "Range(1, 2)"], "Vector(x0, 1, 0).angleWith(Vector(1, x1, 1))", "scalar-operator-random-self"),
+    ("vector-distance", ["Range(-3, 1)", "Range(0, 1)"], "Vector(x0, 1, 2).distanceTo(Vector(1, x1, 1))", None),
+    ("vector-distance-const", ["Range(-3, 1)"], "Vector(x0, 1, 2).distanceTo(Vector(1, 1, 1))", None),
+    ("vector-angleWith", ["Range(1, 3)", "Range(1, 2)"], "Vector(x0, 1, 0).angleWith(Vector(1, x1, 1))", None),
+    ("vector-angleTo-random-self", ["Range(1, 3)"], "Vector(x0, 1, 0).angleTo(Vector(1, 2, 0))", None),
+    ("vector-dot-random-both", ["Range(0, 3)", "Range(-1, 1)"], "Vector(x0, 1, x1).dot(Vector(x1, 2, 3))", None),
+    ("vector-norm-expression", ["Range(-3, 1)", "Range(0, 2)"], "(Vector(x0, 1, 2) - Vector(x1, 0, 0)).norm()", None),
     ("vector-rotatedBy", ["Range(0, 3)"], "Vector(1, 2, 3).rotatedBy(x0)", None),
     ("zero-vector-rotatedBy", ["Range(0, 3)"], "Vector(0, 0, 0).rotatedBy(x0)", None),
     ("vector-dot", ["Range(0, 3)"], "Vector(x0, 1, 0).dot(Vector(1, 2, 3))", None),
@@ -1924,7 +1960,8 @@ def classes_part(ctx, build_ok):
                             break
                 ctx.hist("class_defaults", "holds" if bad is None else "VIOLATED")
                 if bad is not None:
-                    if ctx.violation("class-defaults:" + kind, f"{bad}\n{code}", {"kind": "class", "program": code}):
+                    if ctx.violation("class-defaults:" + kind, f"{bad}\n{code}",
+                                     {"kind": "class", "program": code, "exprs": exprs, "names": names}):
                         found = True
                     break
     finally:
@@ -1961,11 +1998,13 @@ def run(ctx):
     try:
         ctx.gen("ExprTables", c05_exprtables.to_lean(c05_exprtables.extract()))
     except TemplateMismatch as e:
+        ctx.gen_restore("ExprTables")
         ctx.escalated.append(f"translator tie lost (exprtables): {e}")
         ctx.notes.append(f"translator tie lost for the operator tables: {e}; relying on correspondence at thorough budget")
     try:
         ctx.gen("SupportFormulas", c05_support.to_lean(c05_support.extract()))
     except TemplateMismatch as e:
+        ctx.gen_restore("SupportFormulas")
         ctx.escalated.append(f"translator tie lost (support formulas): {e}")
         ctx.notes.append(f"translator tie lost for the support formulas: {e}; relying on correspondence at thorough budget")
     # the real-code runs do not depend on the Lean build: start them first
@@ -1994,21 +2033,27 @@ def run(ctx):
 
 
 def replay(ctx, path):
+    """re-execute the recorded input on $SCENIC_REPO; exit status 1 when the violation is reproduced, 0 when the
+    property holds on it"""
     body = json.load(open(path))
     rep = body.get("replay", body)
     kind = rep.get("kind")
+    bad = False
     if kind == "expr":
         e = decode_expr(rep["expr"])
         leaves = rep["leaves"]
-        print("program:\n" + program_text(leaves, src(e), scenic_leaves=True))
-        real = run_real(leaves, src(e), rep.get("seed", 0), 3, scenic_leaves=True)
-        if real.stage == "compile":
-            print(f"compiling raised {real.exc}: {real.msg}")
-        for lc, lv, r in real.samples:
-            if lv is None:
-                print("scene generation raised", r)
-                continue
-            print("leaves:", lv, "-> scenic:", show_canon(r), " plain Python:", show_canon(py_eval(src(e), lv)))
+        text = src(e)
+        print("program:\n" + program_text(leaves, text, scenic_leaves=True))
+        for scenic_leaves in (True, False):
+            res = expr_job(("replay", leaves, rep.get("leaf_kind") or [leaf_kind_of(l) for l in leaves], e, rep.get("seed", 0), 12))
+            if res["stage"] == "compile":
+                print(f"compiling raised {res['exc']}: {res['msg']}")
+            for smp in res["samples"]:
+                v = property_verdict(res["stage"], res["exc"], res["msg"], smp["r"], smp["p"])
+                print("leaves:", [show_canon(c) for c in smp["lc"]], "-> scenic:", "-" if smp["r"] is None else show_canon(smp["r"]),
+                      " plain Python:", show_canon(smp["p"]), "" if v is None else "   <== " + v[0])
+                bad |= v is not None
+            break
     elif kind == "support":
         e = decode_expr(rep["expr"])
         leaves = [tuple(l) for l in rep["leaves"]]
@@ -2020,6 +2065,14 @@ def replay(ctx, path):
         if vals:
             print(f"{len(vals)} sampled values in [{min(vals)}, {max(vals)}]")
         print("recorded offending value:", rep.get("value"), "at leaves", rep.get("leaf_values"), f"({rep.get('how')})")
+        if not isinstance(sup, str):
+            lo, hi = sup
+            for v, lv in res["values"] + res["corners"]:
+                margin = Fraction(1, 10 ** 8) * max(1, abs(v), abs(lo or 0), abs(hi or 0))
+                if (lo is not None and v < lo - margin) or (hi is not None and v > hi + margin):
+                    print("value", float(v), "at leaves", lv, "lies outside the reported support")
+                    bad = True
+                    break
     elif kind == "extra":
         res = extra_job((rep["name"], rep["leaves"], rep["source"], None, rep.get("seed", 0)))
         print("program:\n" + program_text(rep["leaves"], rep["source"], extra=EXTRA_PRELUDE, scenic_leaves=True))
@@ -2028,16 +2081,36 @@ def replay(ctx, path):
         for lv, r, p in res["samples"]:
             print("leaves:", lv, "-> scenic:", None if r is None else (r if r[0] == "exc" else show_ext(r)),
                   " plain Python:", None if p is None else (p if p[0] == "exc" else show_ext(p)))
+            if res["stage"] == "compile":
+                bad |= p is not None and p[0] != "exc" and res["exc"] not in REJECT_CLASSES
+            elif p is None:
+                bad = True
+            elif p[0] != "exc":
+                bad |= r[0] == "exc" or not same_ext(r, p)
     elif kind == "class":
         import scenic
         print(rep["program"])
         try:
             sc = scenic.scenarioFromString(rep["program"])
-            scene, _ = sc.generate(maxIterations=50, verbosity=0)
-            obj = scene.params["inst"]
-            print({p: getattr(obj, p) for p in obj.properties if p.startswith("p") or p in ("foo", "bar", "g", "heading")})
+            for _ in range(5):
+                scene, _ = sc.generate(maxIterations=50, verbosity=0)
+                obj = scene.params["inst"]
+                print({p: getattr(obj, p) for p in obj.properties if p.startswith("p") or p in ("foo", "bar", "g", "heading")})
+                if rep.get("exprs"):
+                    v = {nm: getattr(obj, nm) for nm in rep["names"]}
+                    for nm, ex in rep["exprs"].items():
+                        try:
+                            want = eval(ex, {"v": v, "max": max, "abs": abs, "__builtins__": {}})
+                        except Exception:
+                            continue
+                        if not same_ext(canon_ext(v[nm]), canon_ext(want), Fraction(1, 10 ** 12)):
+                            print(f"{nm} = {v[nm]!r} but its default evaluates to {want!r} on the final values")
+                            bad = True
         except Exception as e:
             print("raised", type(e).__name__, e)
+            bad = True
     else:
         print(json.dumps(rep, indent=1)[:3000])
-    return 0
+        bad = bool(body.get("no_failing_input_found"))
+    print("REPRODUCED: the property is violated on this input" if bad else "NOT REPRODUCED: the property holds on this input")
+    return 1 if bad else 0
